@@ -66,6 +66,11 @@ func main() {
 		Overlay: cfgOverlay,
 	}
 	patterns := []string{"./pkg/..."}
+	if *maporder {
+		// the command layer and the drivers under analysis/: no state hooks (they run in processes of their
+		// own or with every flag given), but their map ranges are scheduled like any other
+		patterns = append(patterns, "./cmd/...", "./analysis/...")
+	}
 	// third-party packages on the path of reported values (graphcall) live in another module and cannot
 	// import the virtual runtime package; their map ranges stay with the Go runtime (DESIGN.md 6)
 	pkgs, err := packages.Load(cfg, patterns...)
